@@ -68,11 +68,21 @@ def translate(repo: str):
     # ---- stop path
     st = _method(tr, "ThreadRunner", "_on_stop")
     loops = [n for n in st.body if isinstance(n, ast.For)]
-    if len(loops) != 1:
+    # the stop deals with ONE entry of the thread table at a time (kill + re-queue + join of that entry) — a stop that first
+    # re-queues every alive entry and only then joins them takes a running child away from under a parent it then waits for
+    def has(loop, name):
+        return any(isinstance(n, ast.Call) and isinstance(n.func, ast.Attribute) and n.func.attr == name for n in ast.walk(loop))
+    one_at_a_time = len(loops) == 1
+    if len(loops) > 1 and any(has(l, "_kill_and_reroute") and not has(l, "join") for l in loops) and any(has(l, "join") for l in loops):
+        one_at_a_time = False
+        loops = [l for l in loops if has(l, "join")][:1]
+    elif len(loops) != 1:
         raise TranslateError("_on_stop: expected one loop over the thread table")
     ifs = [n for n in loops[0].body if isinstance(n, ast.If)]
-    if len(ifs) != 1 or "is_alive" not in ast.dump(ifs[0].test):
+    if one_at_a_time and (len(ifs) != 1 or "is_alive" not in ast.dump(ifs[0].test)):
         raise TranslateError("_on_stop: expected `if thread.is_alive(): ... else: ...`")
+    if not one_at_a_time:
+        ifs = [ast.parse("if x:\n    self._kill_and_reroute(i)\n    t.join()\nelse:\n    t.join()\n    self._kill_and_reroute(i)").body[0]]
     def order(stmts):
         out = []
         for s in stmts:
@@ -104,7 +114,7 @@ def translate(repo: str):
     f = {"waiting_frees_slot": frees, "blocking_first": blocking_first,
          "stop_kills_alive_before_join": alive == ["_kill_and_reroute", "join"],
          "stop_reroutes_dead_after_join": dead == ["join", "_kill_and_reroute"],
-         "kill_then_reroute": kill_then, "kill_ignores_refusal": ignores}
+         "kill_then_reroute": kill_then, "kill_ignores_refusal": ignores, "stop_one_entry_at_a_time": one_at_a_time}
     del kd
     lines = ["(* GENERATED by harness/translate/runner_facts.py from thread_runner.py / base_runner.py / base_orchestrator.py *)", ""]
     for k, v in f.items():
